@@ -9,7 +9,7 @@ PROP = "C05"
 LEVEL = "exploration"
 SHARDS = {"quick": 8, "thorough": 16}
 TIMEOUT = {"quick": 900, "thorough": 7200}
-REQUIRED = {"hash_len": 4000, "address": 2000, "script_template": 200, "pubkey_address": 300}
+REQUIRED = {"hash_len": 4000, "address": 2000, "script_template": 200, "pubkey_address": 300, "shared_wallet": 80}
 ANCHORS = ['helper:hash160', 'ripemd:ripemd160', 'keys:PublicKey.address', 'base_wallet:BaseWallet.p2pkh_address', 'base_wallet:BaseWallet.p2wpkh_address', 'base_wallet:BaseWallet.p2sh_p2wpkh_address', 'base_wallet:BaseWallet.p2wsh_address', 'base_wallet:BaseWallet.p2sh_p2wsh_address', 'script:Script.raw_serialize', 'helper:h160_to_p2sh_address', 'helper:h256_to_p2wsh_address']
 RULE = ("hash clause: EVERY byte length 0..1024 x {zeros, ff, counter, random} (4100 messages, every RIPEMD-160 padding "
         "boundary), judged against OpenSSL RIPEMD160(SHA256) and an own RIPEMD-160; address clause: keys from scalar classes "
@@ -118,6 +118,36 @@ def judge_address(ctx, case):
                      cls="%s|%s|%s|%s|%s" % (kind, "test" if tn else "main", case.get("ktag", "k"), "pub" if case.get("public") else "prv",
                                              "direct" if case.get("route") != "from_extended_key" else "xkey%d" % case.get("purpose", 44)),
                      mech="C05.address.%s.%s" % (kind, bad[0][0] if bad else ""))
+
+
+def judge_shared_wallet(ctx, case):
+    """ONE wallet object is asked, in sequence, for the five addresses of several DIFFERENT nodes that print the same
+    path (parsed roots all print 'M'/'m'; nodes at the same path of different trees): each answer must be for the node
+    that was passed."""
+    from btc_hd_wallet.base_wallet import BaseWallet
+    from btc_hd_wallet.bip32 import PrvKeyNode, PubKeyNode
+    from ..ref import bip32 as rb32
+    tn = case["testnet"]
+    roots = [rb32.XKey(k, None, c) for k, c in case["roots"]]
+    w = BaseWallet.from_extended_key(roots[0].xprv(rb32.version_for("prv", tn, 44)) if case["private_wallet"] else roots[0].xpub(rb32.version_for("pub", tn, 44)))
+    bad = []
+    n_asked = 0
+    for rnd_i, xk in enumerate(roots):
+        sub_path = case["sub"]
+        ref = rb32.derive(xk, sub_path)
+        if case["node_kind"] == "pub":
+            node = PubKeyNode.parse(xk.xpub(rb32.version_for("pub", tn, 44)), testnet=tn).derive_path(index_list=list(sub_path))
+        else:
+            node = PrvKeyNode.parse(xk.xprv(rb32.version_for("prv", tn, 44)), testnet=tn).derive_path(index_list=list(sub_path))
+        for kind in case["kinds"]:
+            got = getattr(w, kind + "_address")(node)
+            want = _expected(ref.sec(), tn, kind)
+            n_asked += 1
+            if got != want:
+                bad.append(("%s@root%d" % (kind, rnd_i), want, got))
+    return ctx.judge("shared_wallet", not bad, case, "each address belongs to the node passed (%d requests)" % n_asked, bad[:4],
+                     cls="shared|%s|%s|sub%d" % ("test" if tn else "main", case["node_kind"], len(case["sub"])),
+                     mech="C05.shared_wallet." + (bad[0][0].split("@")[0] if bad else ""))
 
 
 def judge_pubkey_address(ctx, case):
@@ -254,6 +284,13 @@ def run(ctx):
             purpose = rnd.choice([44, 49, 84])
             for kind in KINDS:
                 judge_address(ctx, {"k": k, "testnet": tn, "kind": kind, "ktag": tag, "public": pub, "route": route, "purpose": purpose})
+        for _ in range(ctx.scale(120, 12000)):
+            kinds = list(KINDS)
+            rnd.shuffle(kinds)
+            judge_shared_wallet(ctx, {"testnet": rnd.random() < 0.5, "private_wallet": rnd.random() < 0.5,
+                                      "roots": [(gen_key(rnd, lzx)[1], gen.rbytes(rnd, 32)) for _ in range(rnd.randrange(2, 5))],
+                                      "sub": [rnd.choice([0, 1, 5]) for _ in range(rnd.choice([0, 0, 1, 2]))],
+                                      "node_kind": rnd.choice(["pub", "prv"]), "kinds": kinds[:rnd.randrange(2, 6)]})
         for _ in range(ctx.scale(400, 40000)):
             tag, k = gen_key(rnd, lzx)
             z = rnd.choice([0, 0, 0, 1, 2, 5])
@@ -272,6 +309,9 @@ def replay(ctx, monitor, case):
             judge_hash_len(ctx, case)
     elif monitor == "address":
         judge_address(ctx, case)
+    elif monitor == "shared_wallet":
+        case["roots"] = [tuple(r) for r in case["roots"]]
+        judge_shared_wallet(ctx, case)
     elif monitor == "pubkey_address":
         judge_pubkey_address(ctx, case)
     else:
